@@ -105,6 +105,7 @@ pub struct State {
     /// program needs is denied: memory that was writable stays writable.
     pub relfault: bool,
     pub relfault_fired: u32,
+    pub relfault_fired_mprotect: u32,
 }
 
 pub const MAX_WINDOW_CALLS: u64 = 100_000;
@@ -135,6 +136,7 @@ static mut STATE: State = State {
     window_calls: 0,
     relfault: false,
     relfault_fired: 0,
+    relfault_fired_mprotect: 0,
 };
 
 #[allow(static_mut_refs)]
@@ -188,6 +190,10 @@ pub fn relfault_fired() -> u32 {
     st().relfault_fired
 }
 
+pub fn relfault_fired_mprotect() -> u32 {
+    st().relfault_fired_mprotect
+}
+
 pub fn disarm() {
     ARMED.store(false, Ordering::SeqCst);
 }
@@ -208,6 +214,7 @@ pub fn reset(plan: Plan) {
     s.window_calls = 0;
     s.relfault = false;
     s.relfault_fired = 0;
+    s.relfault_fired_mprotect = 0;
 }
 
 fn set_contains(s: &State, pg: usize) -> bool {
@@ -378,6 +385,7 @@ pub unsafe extern "C" fn mprotect(addr: *mut c_void, len: size_t, prot: c_int) -
             }
             if same {
                 s.relfault_fired += 1;
+                s.relfault_fired_mprotect += 1;
                 record(Rec { kind: CallKind::Mprotect, addr: addr as usize, len, arg: prot, ret: -1, injected: true });
                 set_errno(libc::ENOMEM);
                 return -1;
